@@ -6,6 +6,9 @@ cd "$(dirname "$0")/.."
 ROOT=$(pwd)
 if [ -n "$VP_RUN_REPO" ]; then R=$VP_RUN_REPO; else R=$(mktemp -d /tmp/seedrepo-XXXX); git clone -q /repo "$R"; fi
 export VERIF_REPO=$R
+# DEEPEN=1: let a broken tie deepen the runs (what bin/check does by default); default here: quick depth only,
+# i.e. what the quick tier finds on its own
+[ "${DEEPEN:-0}" = "1" ] || export VERIF_NO_DEEPEN=1
 bin/setup >/dev/null 2>&1 || { echo "setup failed"; exit 1; }
 IDS="$@"
 [ -z "$IDS" ] && IDS=$(ls seeded)
